@@ -1672,29 +1672,25 @@ impl Fsm {
             let mut toFinalize: Vec<ExecutableContentId> = Vec::new();
             let mut toForward: Vec<InvokeId> = Vec::new();
             {
-                match externalEvent.invoke_id {
-                    None => {}
-                    Some(ref invokeId) => {
-                        match get_global!(datamodel).child_sessions.get(invokeId) {
-                            None => {}
-                            Some(session) => {
-                                // Get state of invokeid
-                                if let Some(state_id) = session.state_id {
-                                    let invoke_doc_id = session.invoke_doc_id;
-                                    let state = self.get_state_by_id(state_id);
-                                    for inv in state.invoke.iterator() {
-                                        if inv.doc_id == invoke_doc_id {
-                                            toFinalize.push(inv.finalize);
-                                        }
-                                        if inv.autoforward {
-                                            toForward.push(invokeId.clone());
-                                        }
-                                    }
+                // W3C: for every active invocation: if the event comes from it, apply its
+                // <finalize>; if it has 'autoforward', send it a copy of the event.
+                let global = get_global!(datamodel);
+                for (invokeId, session) in &global.child_sessions {
+                    if let Some(state_id) = session.state_id {
+                        let state = self.get_state_by_id(state_id);
+                        for inv in state.invoke.iterator() {
+                            if inv.doc_id == session.invoke_doc_id {
+                                if externalEvent.invoke_id.as_ref() == Some(invokeId) {
+                                    toFinalize.push(inv.finalize);
+                                }
+                                if inv.autoforward {
+                                    toForward.push(invokeId.clone());
                                 }
                             }
                         }
                     }
-                };
+                }
+                toForward.sort();
             }
             datamodel.set_event(&externalEvent);
             for finalizeContentId in toFinalize {
